@@ -613,7 +613,7 @@ class WB:
         sched = self.wf.create_step(
             PlanScheduleStep if plan_steps else ScheduleStep, name=posixpath.join(name, "__schedule__"),
             job_prefix=name, connector_ports={site: dep.get_output_port()}, binding_config=binding,
-            **({"input_directory": dirs[0], "output_directory": dirs[1], "tmp_directory": dirs[2]} if dirs else {}))
+            **({k: d for k, d in zip(("input_directory", "output_directory", "tmp_directory"), dirs) if d} if dirs else {}))
         ex = self.wf.create_step(ExecuteStep, name=name, job_port=sched.get_output_port())
         ex.command = GateCommand(ex, op=op)
         for k, p in ports.items():
